@@ -96,3 +96,68 @@ func trimSuffixRule(r *Report, p *Prog, rule string, pkgs ...string) (loops, tri
 	}
 	return
 }
+
+// keyLiteralCompleteRule (C06.h KEY-LITERAL-COMPLETE): the tables of the
+// resolvers (children, reservations, versions) are keyed by
+// resolve.PackageKey{System, Name}, and every stored key carries its system.
+// A key built for a lookup as a literal that names only some of the fields
+// (PackageKey{Name: alias}) has the zero system and never equals a stored key:
+// the lookup silently misses, and a reserved name is no longer seen as
+// reserved. Every keyed PackageKey literal with at least one field sets all.
+func keyLiteralCompleteRule(r *Report, p *Prog, rule string, pkgs ...string) int {
+	n := 0
+	for _, rel := range pkgs {
+		pk := p.pkg(rel)
+		if pk == nil {
+			continue
+		}
+		for _, f := range pk.Syntax {
+			if strings.HasSuffix(p.Fset.Position(f.Pos()).Filename, "_test.go") {
+				continue
+			}
+			ord := map[string]int{}
+			ast.Inspect(f, func(nd ast.Node) bool {
+				cl, ok := nd.(*ast.CompositeLit)
+				if !ok || len(cl.Elts) == 0 {
+					return true
+				}
+				t := pk.TypesInfo.TypeOf(cl)
+				if t == nil || !strings.HasSuffix(t.String(), "deps.dev/util/resolve.PackageKey") {
+					return true
+				}
+				st, ok := t.Underlying().(*types.Struct)
+				if !ok {
+					return true
+				}
+				if _, keyed := cl.Elts[0].(*ast.KeyValueExpr); !keyed {
+					return true // positional literals are complete by construction
+				}
+				n++
+				fn := p.enclosingFuncName(cl.Pos())
+				ord[fn]++
+				key := fmt.Sprintf("%s: PackageKey literal #%d names every field", fn, ord[fn])
+				set := map[string]bool{}
+				for _, e := range cl.Elts {
+					if kv, ok := e.(*ast.KeyValueExpr); ok {
+						if id, ok := kv.Key.(*ast.Ident); ok {
+							set[id.Name] = true
+						}
+					}
+				}
+				var missing []string
+				for i := 0; i < st.NumFields(); i++ {
+					if !set[st.Field(i).Name()] {
+						missing = append(missing, st.Field(i).Name())
+					}
+				}
+				if len(missing) > 0 {
+					r.bad(rule, key, p.pos(cl.Pos()), fmt.Sprintf("the key is built without %v: stored keys carry every field, so a table lookup with this key never hits (and an equality test with it is never true)", missing))
+				} else {
+					r.ok(rule, key, p.pos(cl.Pos()), "all fields set")
+				}
+				return true
+			})
+		}
+	}
+	return n
+}
